@@ -68,7 +68,7 @@ theorem noNAC_append_notify (q : List Cmd) (e : Note) (h : Cmd.close ∉ q) : no
     | close => simp at h
 
 theorem mem_upd {cs : List Conn} {c : Nat} {f : Conn → Conn} {k : Conn} (h : k ∈ upd cs c f) :
-    k ∈ cs ∨ ∃ k0 ∈ cs, k0.id = c ∧ k = f k0 := by
+    k ∈ cs ∨ ∃ k0, findConn cs c = some k0 ∧ k = f k0 := by
   induction cs with
   | nil => simp [upd] at h
   | cons a r ih =>
@@ -76,14 +76,16 @@ theorem mem_upd {cs : List Conn} {c : Nat} {f : Conn → Conn} {k : Conn} (h : k
     by_cases ha : (a.id == c) = true
     · rw [if_pos ha] at h
       rcases List.mem_cons.1 h with h | h
-      · exact Or.inr ⟨a, by simp, by simpa using ha, h⟩
+      · exact Or.inr ⟨a, by simp [findConn, List.find?, ha], h⟩
       · exact Or.inl (by simp [h])
     · rw [if_neg ha] at h
       rcases List.mem_cons.1 h with h | h
       · exact Or.inl (by simp [h])
-      · rcases ih h with h | ⟨k0, hk0, hid, hk⟩
+      · rcases ih h with h | ⟨k0, hk0, hk⟩
         · exact Or.inl (by simp [h])
-        · exact Or.inr ⟨k0, by simp [hk0], hid, hk⟩
+        · refine Or.inr ⟨k0, ?_, hk⟩
+          simp only [findConn, List.find?] at hk0 ⊢
+          simp [ha, hk0]
 
 theorem mem_eraseConn {cs : List Conn} {c : Nat} {k : Conn} (h : k ∈ eraseConn cs c) : k ∈ cs := by
   induction cs with
@@ -249,5 +251,377 @@ theorem CI.runTask {U : List Nat} {nx : Nat} {k : Conn} (h : CI U nx k) :
   · rcases f3 with f3 | f3
     · rw [f3]; trivial
     · rw [f3]; exact h.nac
+
+/-! ### state-level preservation -/
+
+theorem Inv.same {s s' : State} (h : Inv s) (hf : s'.fixed = s.fixed) (hp : s'.pending = s.pending)
+    (hb : s'.behQ = s.behQ) (hn : s'.nextEv = s.nextEv) (hd : s'.dropped = s.dropped)
+    (hc : ∀ k ∈ s'.conns ++ s'.gone, CI s.U s.nextEv k) : Inv s' := by
+  have hU : s'.U = s.U := by simp [State.U, hp, hb]
+  exact ⟨hf ▸ h.fixed, by rw [hU, hn]; exact hc, hU ▸ h.usorted, by rw [hU, hn]; exact h.ubound,
+    by rw [hp]; exact h.pend, by rw [hd]; exact h.drops⟩
+
+theorem Inv.updConn {s : State} (h : Inv s) (c : Nat) (f : Conn → Conn)
+    (hf : ∀ k, findConn s.conns c = some k → CI s.U s.nextEv k → CI s.U s.nextEv (f k)) :
+    Inv { s with conns := upd s.conns c f } := by
+  refine h.same rfl rfl rfl rfl rfl ?_
+  intro k hk
+  rcases List.mem_append.1 hk with hk | hk
+  · rcases mem_upd hk with hk | ⟨k0, hk0, rfl⟩
+    · exact h.conns k (List.mem_append_left _ hk)
+    · exact hf k0 hk0 (h.conns k0 (List.mem_append_left _ (findConn_mem hk0).1))
+  · exact h.conns k (List.mem_append_right _ hk)
+
+theorem Inv.disconnect {s : State} (h : Inv s) (p : Nat) : Inv (disconnect s p) := by
+  refine h.same rfl rfl rfl rfl rfl ?_
+  intro k hk
+  rcases List.mem_append.1 hk with hk | hk
+  · have hk' : k ∈ s.conns.map (fun k => if k.peer == p then k.startClose s.buf else k) := hk
+    obtain ⟨k0, hk0, rfl⟩ := List.mem_map.1 hk'
+    have := h.conns k0 (List.mem_append_left _ hk0)
+    split
+    · exact this.startClose _
+    · exact this
+  · exact h.conns k (List.mem_append_right _ hk)
+
+theorem nums_append (a b : List BCmd) : BCmd.nums (a ++ b) = BCmd.nums a ++ BCmd.nums b := by
+  induction a with
+  | nil => rfl
+  | cons c r ih => cases c <;> simp [BCmd.nums, ih]
+
+/-- appending a command with fresh number(s) -/
+theorem Inv.pushNum {s : State} (h : Inv s) (cmd : BCmd) (hc : BCmd.nums [cmd] = [s.nextEv]) :
+    Inv { s with behQ := s.behQ ++ [cmd], nextEv := s.nextEv + 1 } := by
+  have hU : ({ s with behQ := s.behQ ++ [cmd], nextEv := s.nextEv + 1 } : State).U = s.U ++ [s.nextEv] := by
+    simp [State.U, nums_append, hc]
+  refine ⟨h.fixed, ?_, ?_, ?_, h.pend, h.drops⟩
+  · rw [hU]
+    intro k hk
+    refine (h.conns k hk).mono ?_ (Nat.le_succ _)
+    intro m hm
+    rcases List.mem_append.1 hm with hm | hm
+    · exact Or.inl hm
+    · simp at hm; exact Or.inr (by omega)
+  · rw [hU, List.pairwise_append]
+    refine ⟨h.usorted, by simp, ?_⟩
+    intro a ha b hb
+    simp at hb; subst hb
+    exact h.ubound a ha
+  · rw [hU]
+    intro m hm
+    rcases List.mem_append.1 hm with hm | hm
+    · have := h.ubound m hm; show m < s.nextEv + 1; omega
+    · simp at hm; show m < s.nextEv + 1; omega
+
+theorem Inv.pushPlain {s : State} (h : Inv s) (cmd : BCmd) (hc : BCmd.nums [cmd] = []) :
+    Inv { s with behQ := s.behQ ++ [cmd] } := by
+  have hU : ({ s with behQ := s.behQ ++ [cmd] } : State).U = s.U := by
+    simp [State.U, nums_append, hc]
+  exact ⟨h.fixed, by rw [hU]; exact h.conns, hU ▸ h.usorted, by rw [hU]; exact h.ubound, h.pend, h.drops⟩
+
+theorem Inv.pushCmds (cmds : List ECmd) : ∀ {s : State}, Inv s → Inv (pushCmds s cmds) := by
+  induction cmds with
+  | nil => intro s h; exact h
+  | cons c r ih =>
+    intro s h
+    cases c with
+    | one c => exact ih (h.pushNum _ rfl)
+    | any p ch => exact ih (h.pushNum _ rfl)
+    | closeOne c => exact ih (h.pushPlain _ rfl)
+    | closeAll p => exact ih (h.pushPlain _ rfl)
+    | gen => exact ih (h.pushPlain _ rfl)
+
+theorem status_some {s : State} {c : Nat} {r : Ready} (h : s.status c = some r) :
+    ∃ k, findConn s.conns c = some k ∧ k.pollReady s.fixed = r := by
+  unfold State.status at h
+  cases hk : findConn s.conns c with
+  | none => simp [hk] at h
+  | some k => exact ⟨k, rfl, by simpa [hk] using h⟩
+
+theorem pollReady_live {f : Bool} {k : Conn} (h : k.isLive = true) :
+    k.pollReady f = .ok ∨ k.pollReady f = .pending := by
+  unfold Conn.isLive at h
+  unfold Conn.pollReady
+  have h1 : k.closing = false := by cases hc : k.closing <;> simp_all
+  have h2 : k.rxOpen = true := by cases hc : k.rxOpen <;> simp_all
+  simp [h1, h2]
+
+theorem pollReady_ok_open {k : Conn} (h : k.pollReady true = .ok) : k.closing = false := by
+  unfold Conn.pollReady at h
+  cases hc : k.closing
+  · rfl
+  · simp [hc] at h
+
+theorem live_status {s : State} {id : Nat} (h : s.isLiveId id = true) :
+    s.status id = some .ok ∨ s.status id = some .pending := by
+  unfold State.isLiveId at h
+  unfold State.status
+  cases hk : findConn s.conns id with
+  | none => simp [hk] at h
+  | some k =>
+    simp only [hk] at h
+    simpa using pollReady_live (f := s.fixed) h
+
+theorem Inv.dropHead {s : State} {p : Pending} (h : Inv s) (hp : s.pending = some p) (cur : Target)
+    (hl : ({ s with pending := none } : State).liveIds cur = []) :
+    Inv (({ s with pending := none } : State).dropNote p.e cur) := by
+  have hU : s.U = p.e.n :: BCmd.nums s.behQ := by simp [State.U, hp, pendNums]
+  have hU' : (({ s with pending := none } : State).dropNote p.e cur).U = BCmd.nums s.behQ := by
+    simp [State.U, State.dropNote, pendNums]
+  refine ⟨h.fixed, ?_, ?_, ?_, ?_, ?_⟩
+  · rw [hU']
+    intro k hk
+    refine (h.conns k hk).mono ?_ (Nat.le_refl _)
+    intro m hm; rw [hU]; exact Or.inl (List.mem_cons_of_mem _ hm)
+  · rw [hU']; have := h.usorted; rw [hU] at this; exact (List.pairwise_cons.1 this).2
+  · rw [hU']; intro m hm; exact h.ubound m (by rw [hU]; exact List.mem_cons_of_mem _ hm)
+  · intro q hq; simp [State.dropNote] at hq
+  · intro d hd
+    simp only [State.dropNote, List.mem_append, List.mem_singleton] at hd
+    rcases hd with hd | hd
+    · exact h.drops d hd
+    · subst hd; exact hl
+
+theorem Inv.sendHead {s : State} {p : Pending} (h : Inv s) (hp : s.pending = some p) (c : Nat) (bad : Bool)
+    (hok : s.status c = some .ok) (ht : okTgt p.e.tgt c) :
+    Inv { s with pending := none, conns := upd s.conns c (Conn.push s.buf p.e), bad := bad } := by
+  have hU : s.U = p.e.n :: BCmd.nums s.behQ := by simp [State.U, hp, pendNums]
+  have hU' : ({ s with pending := none, conns := upd s.conns c (Conn.push s.buf p.e), bad := bad } : State).U
+      = BCmd.nums s.behQ := by simp [State.U, pendNums]
+  have hsub : ∀ m ∈ BCmd.nums s.behQ, m ∈ s.U ∨ s.nextEv ≤ m := by
+    intro m hm; rw [hU]; exact Or.inl (List.mem_cons_of_mem _ hm)
+  obtain ⟨k0, hk0, hr⟩ := status_some hok
+  refine ⟨h.fixed, ?_, ?_, ?_, ?_, h.drops⟩
+  · rw [hU']
+    intro k hk
+    rcases List.mem_append.1 hk with hk | hk
+    · rcases mem_upd hk with hk | ⟨k1, hk1, rfl⟩
+      · exact (h.conns k (List.mem_append_left _ hk)).mono hsub (Nat.le_refl _)
+      · rw [hk0] at hk1; cases hk1
+        have hci := h.conns k0 (List.mem_append_left _ (findConn_mem hk0).1)
+        rw [hU] at hci
+        have hs := h.usorted; rw [hU] at hs
+        refine hci.push _ _ hs (h.ubound _ (by rw [hU]; simp)) ?_ ?_
+        · rw [(findConn_mem hk0).2]; exact ht
+        · rw [h.fixed] at hr; exact pollReady_ok_open hr
+    · exact (h.conns k (List.mem_append_right _ hk)).mono hsub (Nat.le_refl _)
+  · rw [hU']; have := h.usorted; rw [hU] at this; exact (List.pairwise_cons.1 this).2
+  · rw [hU']; intro m hm; exact h.ubound m (by rw [hU]; exact List.mem_cons_of_mem _ hm)
+  · intro q hq; simp at hq
+
+theorem Inv.restorePending {s : State} {p : Pending} (h : Inv s) (hp : s.pending = some p) (p' : Pending)
+    (he : p'.e = p.e) (hok : pendOK p') : Inv { s with pending := some p' } := by
+  have hU : ({ s with pending := some p' } : State).U = s.U := by
+    simp [State.U, hp, pendNums, he]
+  refine ⟨h.fixed, by rw [hU]; exact h.conns, hU ▸ h.usorted, by rw [hU]; exact h.ubound, ?_, h.drops⟩
+  intro q hq
+  simp only [Option.some.injEq] at hq
+  subst hq; exact hok
+
+theorem Inv.deliverPending {s : State} {p : Pending} (h : Inv s) (hp : s.pending = some p) :
+    Inv (deliverPending { s with pending := none } p).1 := by
+  have hpo := h.pend p hp
+  unfold C07.deliverPending
+  cases hcur : p.cur with
+  | one c =>
+    simp only [pendOK, hcur] at hpo
+    simp only
+    cases hst : ({ s with pending := none } : State).status c with
+    | none =>
+      refine h.dropHead hp _ ?_
+      simp only [State.liveIds, List.filter_eq_nil_iff, List.mem_singleton]
+      intro a ha; subst ha
+      intro hl
+      rcases live_status hl with h1 | h1 <;> rw [hst] at h1 <;> cases h1
+    | some r =>
+      cases r with
+      | ok =>
+        have := h.sendHead hp c s.bad (by simpa [State.status] using hst) (by rw [hpo]; rfl)
+        simpa using this
+      | pending =>
+        exact h.restorePending hp p rfl (h.pend p hp)
+      | err =>
+        refine h.dropHead hp _ ?_
+        simp only [State.liveIds, List.filter_eq_nil_iff, List.mem_singleton]
+        intro a ha; subst ha
+        intro hl
+        rcases live_status hl with h1 | h1 <;> rw [hst] at h1 <;> cases h1
+  | any ids =>
+    simp only [pendOK, hcur] at hpo
+    obtain ⟨ids0, htgt, hsub⟩ := hpo
+    simp only
+    split
+    · rename_i r0 rest hready
+      have hmem : ∀ c, c ∈ ids.filter (fun id => ({ s with pending := none } : State).status id == some .ok) →
+          s.status c = some .ok ∧ okTgt p.e.tgt c := by
+        intro c hc
+        obtain ⟨h1, h2⟩ := List.mem_filter.1 hc
+        refine ⟨by simpa [State.status] using h2, ?_⟩
+        rw [htgt]; exact hsub c h1
+      have hr0 : r0 ∈ ids.filter (fun id => ({ s with pending := none } : State).status id == some .ok) := by
+        rw [hready]; simp
+      have hc : ∀ ch : Option Nat,
+          (match ch with
+            | some c => if (ids.filter (fun id => ({ s with pending := none } : State).status id == some .ok)).contains c then c else r0
+            | none => r0) ∈ ids.filter (fun id => ({ s with pending := none } : State).status id == some .ok) := by
+        intro ch
+        cases ch with
+        | none => exact hr0
+        | some c =>
+          simp only
+          split
+          · rename_i hcc; simpa using hcc
+          · exact hr0
+      obtain ⟨h1, h2⟩ := hmem _ (hc p.ch)
+      exact h.sendHead hp _ _ h1 h2
+    · rename_i hready
+      split
+      · rename_i hpend
+        refine h.dropHead hp _ ?_
+        simp only [State.liveIds, List.filter_eq_nil_iff]
+        intro a ha hl
+        rcases live_status hl with h1 | h1
+        · have : a ∈ ids.filter (fun id => ({ s with pending := none } : State).status id == some .ok) :=
+            List.mem_filter.2 ⟨ha, by simp [h1]⟩
+          rw [hready] at this; cases this
+        · have : a ∈ ids.filter (fun id => ({ s with pending := none } : State).status id == some .pending) :=
+            List.mem_filter.2 ⟨ha, by simp [h1]⟩
+          simp only [List.isEmpty_iff] at hpend
+          rw [hpend] at this; cases this
+      · refine h.restorePending hp _ rfl ?_
+        simp only [pendOK]
+        exact ⟨ids0, htgt, fun id hid => hsub id (List.mem_filter.1 hid).1⟩
+
+theorem Inv.congrU {s s' : State} (h : Inv s) (hf : s'.fixed = s.fixed) (hc : s'.conns = s.conns)
+    (hg : s'.gone = s.gone) (hU : s'.U = s.U) (hn : s'.nextEv = s.nextEv) (hd : s'.dropped = s.dropped)
+    (hp : ∀ p, s'.pending = some p → pendOK p) : Inv s' :=
+  ⟨hf ▸ h.fixed, by rw [hU, hn, hc, hg]; exact h.conns, hU ▸ h.usorted, by rw [hU, hn]; exact h.ubound,
+    hp, by rw [hd]; exact h.drops⟩
+
+theorem Inv.handleBeh {s : State} {cmd : BCmd} {rest : List BCmd} (h : Inv s) (hp : s.pending = none)
+    (hq : s.behQ = cmd :: rest) : Inv (handleBeh { s with behQ := rest } cmd) := by
+  cases cmd with
+  | one c n =>
+    refine h.congrU rfl rfl rfl ?_ rfl rfl ?_
+    · simp [handleBeh, State.U, hp, hq, pendNums, BCmd.nums]
+    · intro p hp'; simp only [handleBeh, Option.some.injEq] at hp'; subst hp'; simp [pendOK]
+  | any p n ch =>
+    refine h.congrU rfl rfl rfl ?_ rfl rfl ?_
+    · simp [handleBeh, State.U, hp, hq, pendNums, BCmd.nums]
+    · intro p' hp'; simp only [handleBeh, Option.some.injEq] at hp'; subst hp'; simp [pendOK]
+  | closeOne c =>
+    have h1 : Inv { s with behQ := rest } :=
+      h.congrU rfl rfl rfl (by simp [State.U, hq, BCmd.nums]) rfl rfl (by intro p hp'; exact h.pend p hp')
+    exact h1.updConn c _ (fun k _ hk => hk.startClose _)
+  | closeAll p =>
+    have h1 : Inv { s with behQ := rest } :=
+      h.congrU rfl rfl rfl (by simp [State.U, hq, BCmd.nums]) rfl rfl (by intro p hp'; exact h.pend p hp')
+    exact h1.disconnect p
+  | gen =>
+    exact h.congrU rfl rfl rfl (by simp [handleBeh, State.U, hq, BCmd.nums]) rfl rfl
+      (by intro p hp'; exact h.pend p hp')
+
+theorem runAll_spec {U : List Nat} {nx : Nat} (cs : List Conn) (h : ∀ k ∈ cs, CI U nx k) :
+    (∀ k ∈ (runAll cs).1, CI U nx k) ∧ (runAll cs).2.2 = [] := by
+  induction cs with
+  | nil => simp [runAll]
+  | cons a r ih =>
+    obtain ⟨ih1, ih2⟩ := ih (fun k hk => h k (List.mem_cons_of_mem _ hk))
+    obtain ⟨ha1, ha2⟩ := (h a (by simp)).runTask
+    have e1 : (runAll (a :: r)).1 = a.runTask.1 :: (runAll r).1 := by rw [runAll]
+    have e2 : (runAll (a :: r)).2.2 = a.runTask.2.2 ++ (runAll r).2.2 := by rw [runAll]
+    refine ⟨?_, by rw [e2, ha2, ih2]; rfl⟩
+    intro k hk
+    rw [e1] at hk
+    rcases List.mem_cons.1 hk with hk | hk
+    · rw [hk]; exact ha1
+    · exact ih1 k hk
+
+theorem Inv.advanceLocal {s : State} (h : Inv s) : Inv (advanceLocal s) := by
+  obtain ⟨h1, h2⟩ := runAll_spec s.conns (fun k hk => h.conns k (List.mem_append_left _ hk))
+  have e : advanceLocal s = { s with dialing := [],
+      pendQ := s.pendQ ++ s.dialing.map (fun d => (⟨d.id, d.peer, !d.aborted⟩ : PendMsg)),
+      conns := (runAll s.conns).1, log := s.log ++ (runAll s.conns).2.1 } := by
+    unfold C07.advanceLocal
+    simp only [h2, dropAll]
+  rw [e]
+  refine h.same rfl rfl rfl rfl rfl ?_
+  intro k hk
+  rcases List.mem_append.1 hk with hk | hk
+  · exact h1 k hk
+  · exact h.conns k (List.mem_append_right _ hk)
+
+theorem CI.fresh (U : List Nat) (nx id peer : Nat) : CI U nx ({ id := id, peer := peer } : Conn) :=
+  ⟨by simp [Conn.seq, Cmd.notes], by simp [Conn.seq, Cmd.notes], by simp [Conn.seq, Cmd.notes],
+    by simp, trivial⟩
+
+theorem Inv.poolPoll {s : State} (h : Inv s) (pick : Option Nat) : Inv (poolPoll s pick).1 := by
+  unfold C07.poolPoll
+  simp only
+  split
+  · refine h.same rfl rfl rfl rfl rfl ?_
+    intro k hk
+    rcases List.mem_append.1 hk with hk | hk
+    · exact h.conns k (List.mem_append_left _ (mem_eraseConn hk))
+    · rcases List.mem_append.1 hk with hk | hk
+      · exact h.conns k (List.mem_append_right _ hk)
+      · simp only [Option.mem_toList, Option.mem_def] at hk
+        exact h.conns k (List.mem_append_left _ (findConn_mem hk).1)
+  · split
+    · split
+      · refine h.same rfl rfl rfl rfl rfl ?_
+        intro k hk
+        rcases List.mem_append.1 hk with hk | hk
+        · rcases List.mem_append.1 hk with hk | hk
+          · exact h.conns k (List.mem_append_left _ hk)
+          · simp only [List.mem_singleton] at hk; subst hk; exact CI.fresh _ _ _ _
+        · exact h.conns k (List.mem_append_right _ hk)
+      · exact h.same rfl rfl rfl rfl rfl h.conns
+    · exact h.advanceLocal
+
+theorem Inv.poolPart {s : State} (h : Inv s) (pick : Option Nat) : Inv (poolPart s pick).1 := by
+  unfold C07.poolPart
+  have := h.poolPoll pick
+  split <;> simp_all
+
+theorem Inv.pollLoop (fuel : Nat) : ∀ {s : State}, Inv s → ∀ pick, Inv (pollLoop fuel s pick).1 := by
+  induction fuel with
+  | zero => intro s h pick; exact h
+  | succ n ih =>
+    intro s h pick
+    unfold C07.pollLoop
+    split
+    · exact h.same rfl rfl rfl rfl rfl h.conns
+    · split
+      · rename_i p hp
+        have hd := h.deliverPending hp
+        split
+        · rename_i s1 heq
+          rw [heq] at hd
+          exact Inv.poolPart hd pick
+        · rename_i s1 heq
+          rw [heq] at hd
+          exact ih hd pick
+      · rename_i hp
+        split
+        · rename_i cmd rest hq
+          exact ih (h.handleBeh hp hq) pick
+        · exact h.poolPart pick
+
+theorem Inv.step {s : State} (h : Inv s) (op : Op) : Inv (step s op).1 := by
+  cases op with
+  | connect p => exact h.same rfl rfl rfl rfl rfl h.conns
+  | close c => exact h.updConn c _ (fun k _ hk => hk.startClose _)
+  | disconnect p => exact h.disconnect p
+  | rclose c =>
+    exact h.updConn c _ (fun k _ hk => ⟨hk.tgt, hk.sorted, hk.below, hk.open_, hk.nac⟩)
+  | emit cmds => exact h.pushCmds cmds
+  | poll pick =>
+    have h0 : Inv { s with bad := false } := h.same rfl rfl rfl rfl rfl h.conns
+    exact Inv.pollLoop _ h0 pick
+
+theorem Inv.init (n : Nat) : Inv (State.init n) :=
+  ⟨rfl, by simp [State.init], by simp [State.init, State.U, pendNums, BCmd.nums],
+    by simp [State.init, State.U, pendNums, BCmd.nums], by simp [State.init], by simp [State.init]⟩
 
 end C07
